@@ -158,6 +158,7 @@ type explorer struct {
 	words, steps, interleaved, instObs, worlds atomic.Int64
 	shards                                     int64
 	stop                                       atomic.Bool
+	collisions                                 map[string]int64
 	outcomes                                   *fw.Counter
 	samples                                    *fw.Sampler
 	violMu                                     sync.Mutex
@@ -354,6 +355,7 @@ func (e *explorer) failed(c cfg, history [][]step, word []step) {
 	if try(append(append([][]step{}, history...), word)) {
 		return
 	}
+	os.RemoveAll(e.dirs.root)
 	fw.Fatalf("non-reproducible mismatch: cfg %s word {%s} after %d words in its world", c, wordString(word), len(history))
 }
 
@@ -425,14 +427,35 @@ func (p plan) shards(pi int) []shard {
 	return out
 }
 
+// collisionPairs: (X by one instance, Y later by ANOTHER instance) pairs through which hidden sharing would
+// show; the number of explored words containing each pair is reported as evidence that the collisions happen.
+var collisionPairs = [][2]string{{"ddrop", "minit"}, {"edrop", "tinit"}, {"store", "store"}, {"store", "write"}, {"store", "fill"},
+	{"grow", "grow"}, {"grow", "store"}, {"gset", "gset"}, {"tset", "tset"}, {"tgrow", "tgrow"}, {"tinit", "tset"}, {"open", "open"},
+	{"open", "close"}, {"open", "renumber"}, {"renumber", "open"}, {"close", "open"}, {"write", "write"}, {"entropy", "entropy"},
+	{"exit", "store"}, {"exit", "write"}, {"exit", "minit"}, {"exit", "tinit"}, {"exit", "open"}}
+
+var collisionIdx = func() map[[2]int]string {
+	idx := map[string]int{}
+	for i, n := range opNames {
+		idx[n] = i
+	}
+	m := map[[2]int]string{}
+	for _, p := range collisionPairs {
+		m[[2]int{idx[p[0]], idx[p[1]]}] = p[0] + "->" + p[1]
+	}
+	return m
+}()
+
 type shardStats struct {
 	words, steps, interleaved, instObs int64
 	outcomes                           map[string]int64
+	collisions                         map[string]int64
 	samples                            []any
 }
 
 func (e *explorer) runShard(p plan, sh shard, sampleIt bool) (st shardStats) {
 	st.outcomes = map[string]int64{}
+	st.collisions = map[string]int64{}
 	w := newWorld(p.c, e.dirs, -1)
 	e.worlds.Add(1)
 	defer func() { w.close() }()
@@ -453,6 +476,25 @@ func (e *explorer) runShard(p plan, sh shard, sampleIt bool) (st shardStats) {
 		}
 		if seen&(seen-1) != 0 {
 			st.interleaved++
+			var hit [32]string
+			nh := 0
+			for a := range word {
+				for b := a + 1; b < len(word); b++ {
+					if word[a].I != word[b].I {
+						if n, ok := collisionIdx[[2]int{word[a].Op, word[b].Op}]; ok {
+							dup := false
+							for _, h := range hit[:nh] {
+								dup = dup || h == n
+							}
+							if !dup && nh < len(hit) {
+								hit[nh] = n
+								nh++
+								st.collisions[n]++
+							}
+						}
+					}
+				}
+			}
 		}
 		for j := range r.results {
 			for _, x := range r.results[j] {
@@ -519,6 +561,9 @@ func (e *explorer) exploreAll(ps []plan) []int64 {
 		e.instObs.Add(st.instObs)
 		for k, v := range st.outcomes {
 			e.outcomes.AddN(k, v)
+		}
+		for k, v := range st.collisions {
+			e.collisions[k] += v
 		}
 		for _, x := range st.samples {
 			e.samples.Add(x)
@@ -637,8 +682,14 @@ func plans(thorough bool) []plan {
 		}
 	}
 	same2, same3, diff2, diff3 := []int{0, 0}, []int{0, 0, 0}, []int{0, 1}, []int{0, 0, 1}
-	// primary: two instances of the same compiled module in one runtime, full depth
-	add(d, "one", same2, "lazy", false)
+	// primary: two instances of the same compiled module in one runtime, full depth. It is appended LAST so that a
+	// run that hits its budget has covered every configuration before it deepens the primary one.
+	var primary []plan
+	for _, eng := range []string{"compiler", "interpreter"} {
+		c := cfg{Engine: eng, RT: "one", Variants: same2, Policy: "lazy"}
+		seen[c.String()] = true
+		primary = append(primary, plan{c, d})
+	}
 	// secondary configurations, one level shallower. The thorough tier (words are 34x more numerous per level)
 	// drops the combinations marked quickOnly; every dimension value is still exercised at depth d-1 there.
 	s := d - 1
@@ -677,7 +728,7 @@ func plans(thorough bool) []plan {
 		add(s, "cache-dir2", same2, "lazy", true)
 	})
 	add(s, "cache-mem", same2, "lazy", true)
-	return ps
+	return append(ps, primary...)
 }
 
 func neededLone(ps []plan) (keys []loneKey, depth int) {
@@ -718,7 +769,25 @@ func main() {
 		return
 	}
 	ps := plans(run.Thorough())
-	e := &explorer{run: run, dirs: dirs, lone: map[loneKey]*loneTable{}, outcomes: fw.NewCounter(), samples: fw.NewSampler(16)}
+	if len(os.Args) > 2 && os.Args[2] == "count" {
+		// size of the word space per plan, by enumeration without execution (used for NOTES.md)
+		_, ld := neededLone(ps)
+		var tot int64
+		for _, p := range ps {
+			var n int64
+			p.each(nil, 0, p.depth, func(w []step) {
+				if !(len(w) == p.depth && p.depth > ld-1 && singleActor(w) && p.c.Policy == "lazy") {
+					n++
+				}
+			})
+			fmt.Printf("%-55s depth %d  words %d\n", p.c, p.depth, n)
+			tot += n
+		}
+		fmt.Printf("total %d words in %d plans\n", tot, len(ps))
+		os.RemoveAll(dirs.root)
+		return
+	}
+	e := &explorer{run: run, dirs: dirs, lone: map[loneKey]*loneTable{}, outcomes: fw.NewCounter(), samples: fw.NewSampler(16), collisions: map[string]int64{}}
 	p0cases, p0ok := e.phase0()
 	if !p0ok {
 		run.Capped("phase 0 failed: the lone reference is not reproducible, merged-word exploration skipped")
@@ -752,7 +821,7 @@ func main() {
 		Evaluations: e.words.Load(), DistinctNontriv: e.interleaved.Load(), States: e.words.Load(), Transitions: e.steps.Load(), TracesValidated: e.steps.Load(),
 		Rule:    "state = one merged word (history) per configuration, enumerated statelessly (instances cannot be forked, every word is executed from fresh instances); transition = one guest call on one instance; non-trivial = words in which at least two instances act",
 		Samples: e.samples.List(), Exhaustive: true, Outcomes: e.outcomes.Map(), Bounds: bounds,
-		Extra: map[string]any{"instance_observations_compared_with_lone": e.instObs.Load(), "phase0_separate_runtime_cases": p0cases, "multi_worlds_built": e.worlds.Load(), "shards": e.shards, "lone_fresh_world_runs": loneRuns.Load()},
+		Extra: map[string]any{"instance_observations_compared_with_lone": e.instObs.Load(), "phase0_separate_runtime_cases": p0cases, "words_with_cross_instance_collision_pair": e.collisions, "multi_worlds_built": e.worlds.Load(), "shards": e.shards, "lone_fresh_world_runs": loneRuns.Load()},
 	}, []string{
 		"the lone reference is an instance of the same module and slot configuration alone in a fresh runtime with a fresh compilation, one fresh world per reference word",
 		"merged words are enumerated up to renaming of interchangeable instances (same module); instantiation policies lazy/eager/eager-rev cover the instantiation orders that the renaming would drop; slots (temp directory, stdout buffer) are assumed interchangeable",
